@@ -637,7 +637,16 @@ func ZZ_C14_Defer() {
 		{Name: "X", Cmds: []zzCmd{probe}},
 	}}
 	mayFail := map[string]bool{"T.1": true, "T.3": true, "X.0": true, "T.0": true}
+	zzFixedCode = 7
+	zzSuffix = map[string]string{}
 	tf := g.build(func(id string) bool { return mayFail[id] })
+	zzFixedCode = 0
+	tt, _ := tf.Tasks.Get("T")
+	if !zz.Native() {
+		tt.Cmds[0].Cmd += "#code={{.EXIT_CODE}}" // the deferred command sees the failing command's status
+	} else {
+		tt.Cmds[0].Cmd = "echo S:T.0; echo X:T.0:{{.EXIT_CODE}}; echo F:T.0:0"
+	}
 	tr, err := zzExec(g, tf, zzRunOpts{}, "R")
 	// which defer entries were reached: entry k is reached iff the loop got to index k,
 	// i.e. no earlier regular command failed and the task body started at all
@@ -681,6 +690,29 @@ func ZZ_C14_Defer() {
 		}
 		if len(reached) == 1 {
 			zz.Assert(zzCount(tr, "S", "T.2") == 0, "unreached-defer-does-not-run")
+		}
+	}
+	// .EXIT_CODE of the failing command (T runs as a dependency, i.e. indirectly)
+	if zzCount(tr, "S", "T.0") == 1 {
+		seen := zzSuffix["T.0"]
+		if zz.Native() {
+			seen = "code="
+			for _, ev := range tr {
+				if ev.Kind == "X" && ev.ID == "T.0" && ev.Val != 0 {
+					seen = fmt.Sprintf("code=%d", ev.Val)
+				}
+			}
+		}
+		failedStatus := 0
+		for _, k := range []int{1, 3} {
+			if f := zzIndex(tr, "F", zzProbeID("T", k), 0); f >= 0 && tr[f].Val != 0 && failedStatus == 0 {
+				failedStatus = tr[f].Val
+			}
+		}
+		if failedStatus != 0 {
+			zz.Assert(seen == fmt.Sprintf("code=%d", failedStatus), "deferred-sees-EXIT_CODE-of-the-failing-command")
+		} else if zzCount(tr, "K", "T.1")+zzCount(tr, "K", "T.3") == 0 {
+			zz.Assert(seen == "code=", "deferred-sees-no-EXIT_CODE-when-nothing-failed")
 		}
 	}
 	// before the caller continues
@@ -930,6 +962,32 @@ func ZZ_K_TwoCallers() {
 	wg.Wait()
 	zz.Assert(runs == 1, "once-runs-once")
 	zz.Assert(len(e.concurrencySemaphore) == 0, "concurrency-slots-all-returned")
+	if zz.Twin() {
+		zz.Assert(false, "twin")
+	}
+	zz.Reach("end")
+}
+
+
+// ZZ_C06_DistinctOnce: two different run: once tasks of one file whose names share
+// their last colon-separated segment are two tasks: each executes once and its caller
+// observes its own outcome.
+func ZZ_C06_DistinctOnce() {
+	probe := zzCmd{}
+	g := &zzGraph{Tasks: []zzTask{
+		{Name: "R", Cmds: []zzCmd{{Call: "docker:build"}, {Call: "npm:build"}, probe}},
+		{Name: "docker:build", Run: "once", Cmds: []zzCmd{probe}},
+		{Name: "npm:build", Run: "once", Cmds: []zzCmd{probe}},
+	}}
+	tf := g.build(zzFailingDefault(g))
+	tr, err := zzExec(g, tf, zzRunOpts{}, "R")
+	if g.exit["docker:build.0"] == 0 {
+		zz.Assert(zzCount(tr, "S", "npm:build.0") == 1, "once/distinct-tasks-each-execute")
+		if g.exit["npm:build.0"] != 0 {
+			zz.Assert(err != nil && zzCount(tr, "S", "R.2") == 0, "references-observe-failure/own-outcome")
+		}
+	}
+	zzCheckAllWorkDone(g, tr, err, []string{"R"})
 	if zz.Twin() {
 		zz.Assert(false, "twin")
 	}
